@@ -1,7 +1,7 @@
 """C05 Fixed-base multiplication and the embedded generator tables are exact."""
 import os
 import z3
-from .common import Check, load_prog, load_globals, new_machine, tm, X, MOD, N_ORDER, P_FIELD, sym_limbs, cat_limbs
+from .common import Check, load_prog, load_globals, new_machine, tm, X, MOD, N_ORDER, P_FIELD, sym_limbs, cat_limbs, cat_bytes, point_tree, point_get
 from . import models, groupalg as GA
 from .c04 import ec_add, GX, GY, strip_zext_t
 
@@ -351,20 +351,34 @@ def build(chk, only=''):
                     k0, l0 = tm.var('k0', T.W), tm.var('lam0', T.W)
                     ctx.assume(tm.ult(k0, toy.n, T.W))
                     ctx.assume(tm.band(tm.bnot(tm.eq(l0, 0, T.W)), tm.ult(l0, toy.p, T.W)))
-                    v = X.Ptr(TC.point(m, alg, toy, 'v', k0, l0), ())
+                    # any valid point in any representation, with whatever an earlier use left in bookkeeping fields of the object
+                    v = X.Ptr(TC.point(m, alg, toy, 'v', k0, l0, extra='any'), ())
                 r = m.call(PT + fn, [v, s])
                 sub.note_machine(m)
                 want = TC.window_sum_mod(toy, wins, width)
                 valid, k = TC.index_of(alg, toy, v.obj)
                 ctx.check(r.same(v), 'returns-receiver')
-                ctx.check(tm.eq(v.obj.tree[4], True, 0), 'result-flagged-valid')
+                ctx.check(tm.eq(point_get(prog, v.obj, 'isValid'), True, 0), 'result-flagged-valid')
                 ctx.check(valid, 'bv:result-is-a-valid-projective-point')
                 ctx.check(tm.eq(k, want, T.W), 'bv:result=s*G')
+                # ... and is that point as seen through the public encoders (whatever the receiver object was used for before)
+                if zero_frac < 1:
+                    return 'ok'     # (the encoder's inversion over a multi-window result term is expensive: short-scalar instances only)
+                ub = m.slice_elems(m.call(PT + 'UncompressedBytes', [v]))
+                if m.ctx.branch(tm.eq(want, 0, T.W)) if isinstance(want, tm.T) else (want == 0):
+                    ctx.check(len(ub) == 1 and tm.eq(ub[0], 0, 8), 'bv:result-encodes-as-the-identity')
+                else:
+                    exp = [4] + T.be32(toy.X(want)) + T.be32(toy.Y(want))
+                    ctx.check(len(ub) == 65 and tm.eq(cat_bytes(ub), cat_bytes(exp), 520), 'bv:UncompressedBytes(result)=encoding-of-s*G')
                 return 'ok'
             lbl = 'coord/F_43/%s[sym windows %s, %s, receiver %s]' % (fn, ','.join(map(str, sorted(sym_pos))), 'others zero' if zero_frac >= 1 else 'seed %d' % seed, prior)
             paths = sub.explore(lbl, h, mode='bv', timeout=600, max_paths=400)
             sub.add(lbl + '/witness', [], any(p.outcome == 'ok' for p in paths))
         return task
+    if only and 'encshort' in only and 'coord' not in only:
+        # (for checks whose property speaks about encodings of computed points: the short-scalar instances with an arbitrary prior receiver)
+        for fn, sp in (('ScalarBaseMult', (0,)), ('scalarBaseMultVartime', (31,))):
+            tasks.append(('coord', t_coord(fn, set(sp), 0, 'any', tail=0, zero_frac=1.0)))
     if not only or 'coord' in only:
         grids = [((0,), 1, 'fresh'), ((0, 1), 2, 'any'), ((63,), 3, 'any'), ((5, 40), 4, 'fresh'), ((0, 31, 62), 5, 'any')]
         if chk.thorough:
